@@ -11,7 +11,8 @@ from .ir import (NUMERIC, Const, Enum, Typedef, Struct, Union, Member, Arm, Sche
 
 CXX = os.environ.get('VERIF_CXX', 'g++')
 SAN_FLAGS = ['-fsanitize=address,undefined', '-fno-sanitize-recover=undefined', '-fno-sanitize=enum']
-BASE_FLAGS = ['-std=c++11', '-O0', '-g1', '-fno-omit-frame-pointer', '-w']
+# no -w: g++ treats it as -Wno-narrowing too, which hides ill-formed narrowing conversions a user's build reports
+BASE_FLAGS = ['-std=c++11', '-O0', '-g1', '-fno-omit-frame-pointer']
 RUN_ENV = {
     'ASAN_OPTIONS': 'max_allocation_size_mb=64:allocator_may_return_null=0:detect_leaks=0:abort_on_error=0:'
                     'print_summary=1:symbolize=1',
@@ -535,7 +536,7 @@ class FuzzTU(object):
         with open(os.path.join(self.dir, 'fuzz.cpp'), 'w') as f:
             f.write(gen_fuzz_target(schema))
         self.exe = os.path.join(self.dir, 'fuzz')
-        cmd = ['clang++', '-std=c++11', '-O1', '-g1', '-w', '-Wno-c++11-narrowing', '-fsanitize=fuzzer,address,undefined',
+        cmd = ['clang++', '-std=c++11', '-O1', '-g1', '-w', '-fsanitize=fuzzer,address,undefined',
                '-fno-sanitize=enum', '-fno-sanitize-recover=undefined', '-I', include_dir(), '-I', self.dir,
                'fuzz.cpp', 'm.ppf.cpp', '-o', self.exe]
         p = subprocess.run(cmd, cwd=self.dir, stdout=subprocess.PIPE, stderr=subprocess.STDOUT, timeout=900)
